@@ -42,7 +42,7 @@ CLAIMS = {
     "C07": ("other", "_add_prefix / _root_keys proved per filter entry over z3 strings (a key gets the default sp. prefix iff it names no namespace; every operand of $and/$or/$not is reached), "
             "with counter-models replayed as concrete keys; JobsCursor len / membership / indexing proved to describe the one id list obtained from _find_job_ids with the cursor's own filter; "
             "JobsCursor.groupby proved over a filter-meaning evaluator: exactly the cursor's jobs (having every key when no default is given) are grouped, one key function sorts and groups, "
-            "the label is the job's own value (flat keys; dotted keys are known finding F6); the command-line front end (_cast, _parse_single, parse_simple, parse_filter_arg) and the "
+            "the label is the job's own value, nested keys looked up level by level (defect F6 found and repaired); the command-line front end (_cast, _parse_single, parse_simple, parse_filter_arg) and the "
             "cursor / iterator wiring likewise. Spelling equivalences over whole queries are bounded.",
             "DESIGN 4/C07, 11", TECH + " incl. string theory; bounded contract checking for the string front ends", BASE_TRUST),
     "C08": ("other", "Cache validity invariant (every entry hashes to its key) proved as an invariant of every function that writes the in-memory or persistent cache under contract "
